@@ -38,7 +38,7 @@ class Ctx:
         self.counter = 0
         self.strings = {}       # concrete str -> z3 Real const
         self.global_axioms = []  # filled by builtins_ (pi, sqrt2)
-        self.branch_timeout_ms = 400
+        self.branch_timeout_ms = 150
         self.max_paths = 4000
         self.stats = {'feas_checks': 0, 'paths': 0}
 
@@ -90,6 +90,9 @@ class Path:
         self.facts = []                   # (number of decisions when assumed, fact)
         self.pending = []
         self.obligations = []             # side obligations (label, z3 Bool that must hold)
+        self.known = {}                   # id of a decided condition -> its value on this path
+        if CTX.paths:
+            self.known.update(CTX.paths[-1].known)
 
     def all_conds(self):
         return self.base + self.conds
@@ -110,6 +113,9 @@ class Path:
             return True
         if z3.is_false(c):
             return False
+        k = self.known.get(c.get_id())
+        if k is not None and k[1].eq(c):
+            return k[0]
         if self.pos < len(self.decisions):
             d, forced = self.decisions[self.pos]
         else:
@@ -128,6 +134,10 @@ class Path:
         self.pos += 1
         self.conds.append(c if d else z3.Not(c))
         self.local.append(c if d else z3.Not(c))
+        # the ASTs are stored with the verdict: an id is only meaningful while its AST is alive
+        self.known[c.get_id()] = (d, c)
+        neg = c.arg(0) if z3.is_not(c) else z3.Not(c)
+        self.known[neg.get_id()] = (not d, neg)
         return d
 
 
@@ -212,7 +222,7 @@ class SNum:
     tag: None (finite) or z3 Int term 0=finite 1=inf 2=nan.
     np: value came out of numpy (division by zero does not raise).
     """
-    __slots__ = ('re', 'im', 'tag', 'np', 'bigsum')
+    __slots__ = ('re', 'im', 'tag', 'np', 'bigsum', 'absof')
 
     def __init__(self, re, im=None, tag=None, np=False, bigsum=None):
         self.re = re
@@ -220,6 +230,7 @@ class SNum:
         self.tag = tag
         self.np = np
         self.bigsum = bigsum
+        self.absof = None     # (re, im) when this number is |re + j im|
 
     @property
     def is_int(self):
